@@ -233,8 +233,15 @@ func (q *Query) Solve(dir, tag string, timeoutMs int) *SolveResult {
 	}
 	res.SMTText = text
 	if q.Cheap && stage1Sat {
+		// cheap obligation kinds (nil, lock, immutable): one short attempt on the full query
+		st, out, ms := runSolver(solvers[0], text, dir, tag, 1500)
+		res.Tried = append(res.Tried, solvers[0].name+":"+st)
+		if st == "unsat" {
+			res.Status, res.Solver, res.Output, res.Ms = st, solvers[0].name, out, ms
+			return res
+		}
 		res.Status = "unknown"
-		res.Output = "quantifier-free relaxation is satisfiable; full query skipped for this obligation kind"
+		res.Output = "quantifier-free relaxation is satisfiable; one short attempt on the full query did not decide it"
 		return res
 	}
 	t0 := time.Now()
